@@ -13,6 +13,7 @@ import (
 	"sort"
 	"strings"
 	"sync"
+	"sync/atomic"
 	"time"
 )
 
@@ -92,6 +93,13 @@ type Run struct {
 	nviolFiles int
 	statePath  string
 	perClass   map[string]int
+	ticks      int64
+	crumbText  atomic.Value
+}
+
+func (r *Run) lastCrumb() string {
+	s, _ := r.crumbText.Load().(string)
+	return s
 }
 
 // FinishEarly writes the state gathered so far (marked done) and exits the
@@ -194,6 +202,9 @@ func (r *Run) Inconclusive(reason string) {
 // Crumb records free text about the case about to be executed so that a fatal
 // crash leaves the witness on disk.
 func (r *Run) Crumb(s string) {
+	if s != "" {
+		r.crumbText.Store(fmt.Sprintf("batch %d case %d: %s", r.Batch, r.CaseIdx, s))
+	}
 	if r.crumb == nil {
 		return
 	}
@@ -342,6 +353,7 @@ func RunChild(m *Monitor, dir, tier string, seed int64, batch, nbatch int, state
 		}
 		r.CaseIdx = i
 		r.Rng = rand.New(rand.NewSource(r.CaseSeed(i)))
+		r.Tick()
 		r.Crumb("")
 		m.Case(r, i)
 	}
